@@ -577,7 +577,9 @@ def fdepsd(
     LF = freq.size
     dT = 1 / sr
     pi = np.pi
-    Wn = 2 * pi * freq
+    # double precision, as in the shared array used by the parallel
+    # workers, so that serial and parallel runs use the same `Wn`
+    Wn = 2 * pi * freq.astype(float)
     parallel, ncpu = srs._process_parallel(
         parallel, LF, sig.size, maxcpu, getresp=False
     )
